@@ -1072,7 +1072,7 @@ fn gen_value(rng: &mut Rng, k: &mut Sink, cx: &mut Ctx, spec: &'static Character
         }
         CharacterDataSpec::Float => {
             k.stat("value:float");
-            let v = rng.pick(&["1.5", "-2", "1e10", "1.5E-3", "INF", "-INF", "NaN", ".5", "5.", "+1.0", "0", "3.141592653589793", "1e-320", "123456789.125"]).to_string();
+            let v = rng.pick(&["1.5", "-2", "1e10", "1.5E-3", "INF", "-INF", "NaN", ".5", "5.", "+1.0", "0", "3.141592653589793", "1e-320", "123456789.125", "1E21", "-30000000000000000000", "9223372036854775808", "18446744073709551616", "1e300"]).to_string();
             Some(if plain { v } else { pad(rng, k, v) })
         }
     }
